@@ -339,6 +339,19 @@ def emit():
     with open(os.path.join(ROOT, "harness", "data", "wacpool.json"), "w") as f:
         json.dump(data, f, indent=1)
         f.write("\n")
+    # C16: documents in which several items are wrong in the same way -- which one the diagnostic names
+    # must not depend on the iteration order of a hash map
+    det_docs = [
+        "package test:comp;\nworld w1 {}\nworld w2 { include w1 with { a as b, c as d, e as f, g as h }; }\n",
+        "package test:comp;\nworld w1 { import a: func(); }\nworld w2 { include w1 with { x as y, a as b, z as q }; }\n",
+        "package test:comp;\ninterface i { use nope.{a, b, c}; }\n",
+        "package test:comp;\nlet a = new test:prov {};\nlet c = new test:cons { zz: a.f, yy: a.f, xx: a.f };\n",
+        "package test:comp;\nlet c = new test:cons {};\n",
+        "package test:comp;\nimport f: func();\nexport f as \"a\";\nexport f as \"b\";\nexport f as \"a\";\n",
+    ]
+    with open(os.path.join(ROOT, "harness", "data", "det_docs.json"), "w") as f:
+        json.dump([{"text": t} for t in det_docs], f, indent=1)
+        f.write("\n")
     return len(stmts)
 
 
